@@ -309,7 +309,7 @@ fn rows_sexp(rows: &[(i64, i64)]) -> String {
 }
 
 async fn judge_cases(run: &mut Run, rng: &mut Rng) {
-    let n = run.budget(120, 3000);
+    let n = run.budget(400, 8000);
     let batch_size = 2usize;
     // operator buffers: each filter / aggregation / coalescer may hold back < batch_size rows; the
     // generator guarantees that at least every second input row passes every filter and that
@@ -394,8 +394,41 @@ async fn judge_cases(run: &mut Run, rng: &mut Rng) {
     }
 }
 
-/// the buffering probe (observation, reported in the evidence notes, not judged): one passing
-/// row followed by rows that do not pass — is the passing row delivered while input continues?
+/// `held` (equality): a plain filter over the endless source hands on exactly the completed
+/// batches of its output coalescer.
+async fn held_cases(run: &mut Run, rng: &mut Rng) {
+    let n = run.budget(200, 3000);
+    for _ in 0..n {
+        let bs = *rng.pick(&[2usize, 3, 5, 8]);
+        let lo = rng.range(-2, 12);
+        let (ctx, log) = make_ctx(bs, true);
+        let sql = format!("SELECT k, v FROM s WHERE v >= {lo}");
+        let Ok(plan) = async { ctx.sql(&sql).await?.create_physical_plan().await }.await else {
+            run.oracle(false, &format!("held-plan {sql}"), "planning failed");
+            continue;
+        };
+        let Ok(st) = plan.execute(0, ctx.task_ctx()) else { continue };
+        let mut r = Running { streams: vec![Some(st)], delivered: vec![], ended: 0, error: None };
+        let total = 5 + rng.below(30) as usize;
+        let mut rows: Vec<(i64, i64)> = vec![];
+        while rows.len() < total {
+            // one row per input batch: with larger input batches arrow's coalescer may pass a
+            // "large" batch (> batch_size / 2 rows) through unmerged, which the model does not describe
+            let chunk = 1usize;
+            let b: Vec<(i64, i64)> = (0..chunk).map(|j| ((rows.len() + j) as i64, rng.range(-5, 15))).collect();
+            feed(&log, &b);
+            rows.extend(b);
+            r.settle().await;
+        }
+        let passing = rows.iter().filter(|x| x.1 >= lo).count();
+        run.count(if r.delivered.len() < passing { "held:rows-held-back" } else { "held:all-delivered" });
+        run.case("held", &format!("({bs} {lo} {})", rows_sexp(&rows)), &r.delivered.len().to_string(), passing >= 1 && passing % bs != 0);
+    }
+}
+
+/// the liveness gap of the filter's output coalescer, as an implementation-level oracle: one
+/// passing row followed by rows that do not pass — the passing row must be delivered while the
+/// input continues.
 async fn sparse_filter_probe(run: &mut Run) {
     for bs in [2usize, 8192] {
         let (ctx, log) = make_ctx(bs, true);
@@ -418,6 +451,11 @@ async fn sparse_filter_probe(run: &mut Run) {
             "sparse-filter probe (batch_size={bs}): `{sql}`; fed 1 passing row -> {after_pass} delivered; then 200 non-passing rows (input continues) -> {after_200} delivered"
         ));
         run.count(&format!("sparse-filter-probe:bs{bs}:{}", if after_200 >= 1 { "delivered" } else { "held-back" }));
+        run.oracle(
+            after_200 >= 1,
+            &format!("held-back FilterExec batch_size={bs} :: {sql} :: input (1,100) then 200 rows (k,0)"),
+            &format!("the row (1,100) passes the filter and is determined by the first input row, but after 200 further input rows (none passing) {after_200} rows have been delivered: FilterExecStream only emits completed batches of its LimitedBatchCoalescer and does not flush when the input is Pending"),
+        );
     }
 }
 
@@ -511,7 +549,7 @@ fn prop_queries(rng: &mut Rng) -> Vec<String> {
 }
 
 async fn props_cases(run: &mut Run, rng: &mut Rng) {
-    let rounds = run.budget(2, 30);
+    let rounds = run.budget(3, 30);
     for _ in 0..rounds {
         for sql in prop_queries(rng) {
             let (ctx_nosanity, _l1) = make_ctx(4, false);
@@ -563,12 +601,33 @@ async fn props_cases(run: &mut Run, rng: &mut Rng) {
     }
 }
 
+async fn probe() {
+    let (ctx, _log) = make_ctx(4, true);
+    for sql in [
+        "SELECT k, v + 7 AS v FROM (SELECT k, v + 7 AS v FROM (SELECT k, v + 5 AS v FROM m))",
+        "SELECT k, v + 7 AS v FROM (SELECT k, v + 7 AS v FROM (SELECT k, v FROM (SELECT k, v + 5 AS v FROM m) WHERE v >= 0))",
+        "SELECT k, v + 7 AS v FROM (SELECT k, v + 7 AS v FROM (SELECT k, v + 5 AS v FROM m) LIMIT 3)",
+        "SELECT k, v + 7 AS v FROM (SELECT k, v FROM (SELECT k, v + 7 AS v FROM (SELECT k, v + 5 AS v FROM m)) WHERE v > -100)",
+        "SELECT k, v * 2 AS v FROM (SELECT k, v * 2 AS v FROM (SELECT k, v + 5 AS v FROM m))",
+    ] {
+        let df = ctx.sql(sql).await.unwrap();
+        let plan = df.clone().create_physical_plan().await.unwrap();
+        let rows = df.collect().await.unwrap();
+        println!("SQL {sql}\n{}\n{}", datafusion_physical_plan::displayable(plan.as_ref()).indent(false), arrow::util::pretty::pretty_format_batches(&rows).unwrap());
+    }
+}
+
 pub fn run(run: &mut Run, args: &Args) {
     hutil::quiet_panics();
+    if args.tier == "probe" {
+        tokio::runtime::Builder::new_current_thread().enable_all().build().unwrap().block_on(probe());
+        return;
+    }
     let mut rng = Rng::new(args.seed);
     let rt = tokio::runtime::Builder::new_current_thread().enable_all().build().unwrap();
     rt.block_on(async {
         judge_cases(run, &mut rng).await;
+        held_cases(run, &mut rng).await;
         sparse_filter_probe(run).await;
         props_cases(run, &mut rng).await;
     });
